@@ -5,9 +5,9 @@ from gen import extract_facts
 generate_facts = extract_facts.generate
 
 ID = "C03"
-LEAN_MODULES = ["Econf.Props.C03", "Econf.Props.Tie", "Econf.Props.LeafKf", "Econf.Props.LeafMerge", "Econf.Props.LeafAddNew", "Econf.Props.LeafMergeEx", "Econf.Props.LeafMergeAll"]
+LEAN_MODULES = ["Econf.Props.C03", "Econf.Props.Tie", "Econf.Props.LeafKf", "Econf.Props.LeafMerge", "Econf.Props.LeafAddNew", "Econf.Props.LeafMergeEx", "Econf.Props.LeafMergeAll", "Econf.Props.LeafMergeFiles"]
 # the look-ups of the merge over the entry arrays: translated from lib/mergefiles.c on every run (gen/c2lean.py)
-LEAF_FNS = ["has_group", "first_entry", "first_definition", "setGroupList", "cpy_file_entry", "merge3"]
+LEAF_FNS = ["has_group", "first_entry", "first_definition", "setGroupList", "cpy_file_entry", "merge3", "mergeFiles"]
 THEOREMS = ["Econf.C03_lookup", "Econf.C03_nothing_else", "Econf.C03_no_duplicates", "Econf.C03_base_order",
             "Econf.C03_new_keys_after_base", "Econf.C03_new_groups_last", "Econf.C03_groupless_first", "Econf.C03_bound",
             "Econf.C03_object", "Econf.C03_merge_spec", "Econf.Struct.api_frames",
@@ -31,7 +31,11 @@ THEOREMS = ["Econf.C03_lookup", "Econf.C03_nothing_else", "Econf.C03_no_duplicat
             "LeafKf.C_merge_existing_groups", "LeafKf.mo_round", "LeafKf.mo_first", "LeafKf.meUpTo_model", "LeafKf.cpy_meUpTo",
             # the three calls in sequence, as econf_mergeFiles makes them: array = mergeEntries, group list = groupsOf
             "LeafKf.C_merge3", "LeafKf.C_merge3_mergeFiles", "LeafKf.EntMem.carry", "LeafKf.SrcMem.transfer", "LeafKf.Example.run_merge3",
-            "LeafKf.insert_nogroup_null", "LeafKf.add_new_groups_null", "LeafKf.merge_existing_groups_null"]
+            "LeafKf.insert_nogroup_null", "LeafKf.add_new_groups_null", "LeafKf.merge_existing_groups_null",
+            # econf_mergeFiles itself (lib/libeconf.c) on the generated term: from the object calloc returns (groups == NULL) to the result object
+            "LeafKf.C_merge3_fresh", "LeafKf.C_econf_mergeFiles", "LeafKf.C_econf_mergeFiles_null", "LeafKf.C_econf_mergeFiles_null_dest",
+            "LeafKf.econf_mergeFiles_shape", "LeafKf.mf_prefix", "LeafKf.mf_zero", "LeafKf.GlMem.set_member", "LeafKf.GlMemA.ne",
+            "LeafKf.Example.run_merge3_fresh", "LeafKf.Example.dest_null", "LeafKf.Example.run_mergeFiles"]
 RULE = ("pairs of entry lists over {group-less,A,B}x{x,y}: exhaustive up to the tier's length bound, built by parsing and by the setters "
         "on all constructor kinds, plus random larger pairs, pairs with valueless definitions, and pairs in which an input is the result of "
         "econf_readDirs or a member of a history; non-trivial = merge succeeded and both sides non-empty or one side an "
